@@ -39,20 +39,14 @@ THEOREMS = {
 }
 
 TIE_MODULE = "Cstl.DList.Tie"
-TIE_THEOREMS = [
-    "Cstl.DList.Tie.insert_tie",
-    "Cstl.DList.Tie.erase_tie",
-    "Cstl.DList.Tie.insert_public_tie",
-    "Cstl.DList.Tie.erase_public_tie",
-    "Cstl.DList.Tie.front_tie",
-    "Cstl.DList.Tie.back_tie",
-    "Cstl.DList.Tie.pushFront_tie",
-    "Cstl.DList.Tie.pushBack_tie",
-    "Cstl.DList.Tie.popFront_tie",
-    "Cstl.DList.Tie.popBack_tie",
-    "Cstl.DList.Tie.pop_none_iff",
-    "Cstl.DList.Tie.concat_tie",
-]
+def _tie_theorems():
+    import os
+    src = open(os.path.join(os.path.dirname(os.path.dirname(os.path.dirname(os.path.abspath(__file__)))),
+                            "lean", "Cstl", "DList", "Tie.lean")).read()
+    return ["Cstl.DList.Tie." + n for n in re.findall(r"^theorem\s+(\S+)", src, flags=re.M)]
+
+
+TIE_THEOREMS = _tie_theorems()
 
 NLISTS = 3
 
